@@ -72,7 +72,7 @@ pub proof fn lemma_cache_gives_max(x: Seq<T>, s: int, e: int, idx: Option<usize>
     }
 }
 
-//@fn name=ts_vmin_to crate=tea-rolling ctx="pub trait RollingValidCmp" props=C03,C05,C10 arith=C05
+//@fn name=ts_vmin_to crate=tea-rolling ctx="pub trait RollingValidCmp" props=C03,C05,C06,C07,C10 arith=C05
 //@types T::Inner=i64
 //@sig fn ts_vmin_to<V: RollingDrivers<T>, O: Vec1<U>>(this: &V, window: usize, min_periods: Option<usize>, out: Option<&mut O::Buf>) -> (r: Option<O>)
 //@replace min(this.len(), window) => usize_min(this.len(), window)
@@ -81,8 +81,8 @@ pub proof fn lemma_cache_gives_max(x: Seq<T>, s: int, e: int, idx: Option<usize>
         out matches Some(o) ==> buf_fresh(o, this.view().len()),
         window >= 1,
     ensures
-        delivered_each(r, match out { Some(o) => Some(final(o).written()), None => None }, this.view().len(),                    // #C05 one_output_per_input
-            |i: int, o: U| vmin_spec(wnd(this.view(), window, i), mp_cmp(min_periods, window, this.view().len()), o)),             // #C03,C05 minimum_of_window
+        delivered_each(r, match out { Some(o) => Some(final(o).written()), None => None }, this.view().len(),                    // #C05,C07 one_output_per_input
+            |i: int, o: U| vmin_spec(wnd(this.view(), window, i), mp_cmp(min_periods, window, this.view().len()), o)),             // #C03,C05,C06 minimum_of_window
 //@closure 1 name=CloVmin generics="<'a, V: RollingDrivers<T>>" generics_use="<'a, V>" trait="RollingIdxFn<T, U>" params="start: Option<usize>, end: usize, v: T" ret="(res: U)" push="CallIdx { start: start, end: end, v: v, out: __r }" callty="CallIdx<T, U>" caps="mut min: Option<i64>, mut min_idx: Option<usize>, mut n: usize, this: &'a V, min_periods: usize"
 //@closure 1 extra
     open spec fn hist(&self) -> Seq<CallIdx<T, U>> { self.h@ }
@@ -95,7 +95,7 @@ pub proof fn lemma_cache_gives_max(x: Seq<T>, s: int, e: int, idx: Option<usize>
             let e = h.len() - 1;
             let s = ostart(h.last().start);
             &&& h.last().end == e && e < x.len() && 0 <= s <= e
-            &&& cache_ok(x, s, e, self.min_idx, self.min, true)                                                        // #C03 cached_minimum_describes_window
+            &&& cache_ok(x, s, e, self.min_idx, self.min, true)                                                        // #C03,C06 cached_minimum_describes_window
             &&& self.n as int == cntr(x, s + (if h.last().start.is_some() { 1int } else { 0int }), e + 1)              // #C03,C05 count_describes_window
         }
         &&& idx_outs_ok(h, x, |w: Seq<T>, o: U| vmin_spec(w, self.min_periods as int, o))
@@ -122,10 +122,10 @@ pub proof fn lemma_cache_gives_max(x: Seq<T>, s: int, e: int, idx: Option<usize>
                             i > start ==> cache_ok(x, start as int, i - 1, min_idx, min, true),
 //@at closure 1 last
         proof {
-            assert(cache_ok(x, s_new, end as int, min_idx, min, true));                          // #C03 cached_minimum_describes_window
+            assert(cache_ok(x, s_new, end as int, min_idx, min, true));                          // #C03,C06 cached_minimum_describes_window
             lemma_cache_gives_min(x, s_new, end as int, min_idx, min);
             let c = CallIdx { start: start, end: end, v: v, out: __r };
-            assert(vmin_spec(x.subrange(s_new, end as int + 1), self.min_periods as int, __r));   // #C03,C05 output_is_window_minimum
+            assert(vmin_spec(x.subrange(s_new, end as int + 1), self.min_periods as int, __r));   // #C03,C05,C06 output_is_window_minimum
             lemma_idx_outs_step(h0, c, x, |w: Seq<T>, o: U| vmin_spec(w, self.min_periods as int, o));
         }
 //@at body first
@@ -148,7 +148,7 @@ pub proof fn lemma_cache_gives_max(x: Seq<T>, s: int, e: int, idx: Option<usize>
     }
 //@end
 
-//@fn name=ts_vmax_to crate=tea-rolling ctx="pub trait RollingValidCmp" props=C03,C05,C10 arith=C05
+//@fn name=ts_vmax_to crate=tea-rolling ctx="pub trait RollingValidCmp" props=C03,C05,C06,C07,C10 arith=C05
 //@types T::Inner=i64
 //@sig fn ts_vmax_to<V: RollingDrivers<T>, O: Vec1<U>>(this: &V, window: usize, min_periods: Option<usize>, out: Option<&mut O::Buf>) -> (r: Option<O>)
 //@replace min(this.len(), window) => usize_min(this.len(), window)
@@ -157,8 +157,8 @@ pub proof fn lemma_cache_gives_max(x: Seq<T>, s: int, e: int, idx: Option<usize>
         out matches Some(o) ==> buf_fresh(o, this.view().len()),
         window >= 1,
     ensures
-        delivered_each(r, match out { Some(o) => Some(final(o).written()), None => None }, this.view().len(),                    // #C05 one_output_per_input
-            |i: int, o: U| vmax_spec(wnd(this.view(), window, i), mp_cmp(min_periods, window, this.view().len()), o)),             // #C03,C05 maximum_of_window
+        delivered_each(r, match out { Some(o) => Some(final(o).written()), None => None }, this.view().len(),                    // #C05,C07 one_output_per_input
+            |i: int, o: U| vmax_spec(wnd(this.view(), window, i), mp_cmp(min_periods, window, this.view().len()), o)),             // #C03,C05,C06 maximum_of_window
 //@closure 1 name=CloVmax generics="<'a, V: RollingDrivers<T>>" generics_use="<'a, V>" trait="RollingIdxFn<T, U>" params="start: Option<usize>, end: usize, v: T" ret="(res: U)" push="CallIdx { start: start, end: end, v: v, out: __r }" callty="CallIdx<T, U>" caps="mut max: Option<i64>, mut max_idx: Option<usize>, mut n: usize, this: &'a V, min_periods: usize"
 //@closure 1 extra
     open spec fn hist(&self) -> Seq<CallIdx<T, U>> { self.h@ }
@@ -171,7 +171,7 @@ pub proof fn lemma_cache_gives_max(x: Seq<T>, s: int, e: int, idx: Option<usize>
             let e = h.len() - 1;
             let s = ostart(h.last().start);
             &&& h.last().end == e && e < x.len() && 0 <= s <= e
-            &&& cache_ok(x, s, e, self.max_idx, self.max, false)                                                        // #C03 cached_maximum_describes_window
+            &&& cache_ok(x, s, e, self.max_idx, self.max, false)                                                        // #C03,C06 cached_maximum_describes_window
             &&& self.n as int == cntr(x, s + (if h.last().start.is_some() { 1int } else { 0int }), e + 1)              // #C03,C05 count_describes_window
         }
         &&& idx_outs_ok(h, x, |w: Seq<T>, o: U| vmax_spec(w, self.min_periods as int, o))
@@ -198,10 +198,10 @@ pub proof fn lemma_cache_gives_max(x: Seq<T>, s: int, e: int, idx: Option<usize>
                             i > start ==> cache_ok(x, start as int, i - 1, max_idx, max, false),
 //@at closure 1 last
         proof {
-            assert(cache_ok(x, s_new, end as int, max_idx, max, false));                          // #C03 cached_maximum_describes_window
+            assert(cache_ok(x, s_new, end as int, max_idx, max, false));                          // #C03,C06 cached_maximum_describes_window
             lemma_cache_gives_max(x, s_new, end as int, max_idx, max);
             let c = CallIdx { start: start, end: end, v: v, out: __r };
-            assert(vmax_spec(x.subrange(s_new, end as int + 1), self.min_periods as int, __r));   // #C03,C05 output_is_window_maximum
+            assert(vmax_spec(x.subrange(s_new, end as int + 1), self.min_periods as int, __r));   // #C03,C05,C06 output_is_window_maximum
             lemma_idx_outs_step(h0, c, x, |w: Seq<T>, o: U| vmax_spec(w, self.min_periods as int, o));
         }
 //@at body first
@@ -252,7 +252,7 @@ pub proof fn lemma_cache_gives_arg(x: Seq<T>, s: int, e: int, idx: Option<usize>
     assert forall|t: int| j - s < t < w.len() implies (if asc { lt(w[j - s], #[trigger] w[t]) } else { gt_rev(w[j - s], #[trigger] w[t]) }) by { assert(w[t] == x[s + t]); }
 }
 
-//@fn name=ts_vargmin_to crate=tea-rolling ctx="pub trait RollingValidCmp" props=C03,C05,C10 arith=C05
+//@fn name=ts_vargmin_to crate=tea-rolling ctx="pub trait RollingValidCmp" props=C03,C05,C06,C07,C10 arith=C05
 //@types T::Inner=i64
 //@sig fn ts_vargmin_to<V: RollingDrivers<T>, O: Vec1<f64>>(this: &V, window: usize, min_periods: Option<usize>, out: Option<&mut O::Buf>) -> (r: Option<O>)
 //@replace min(this.len(), window) => usize_min(this.len(), window)
@@ -261,8 +261,8 @@ pub proof fn lemma_cache_gives_arg(x: Seq<T>, s: int, e: int, idx: Option<usize>
         out matches Some(o) ==> buf_fresh(o, this.view().len()),
         window >= 1,
     ensures
-        delivered_each(r, match out { Some(o) => Some(final(o).written()), None => None }, this.view().len(),                    // #C05 one_output_per_input
-            |i: int, o: f64| varg_spec(wnd(this.view(), window, i), mp_cmp(min_periods, window, this.view().len()), o, true)),             // #C03,C05 minimum_of_window
+        delivered_each(r, match out { Some(o) => Some(final(o).written()), None => None }, this.view().len(),                    // #C05,C07 one_output_per_input
+            |i: int, o: f64| varg_spec(wnd(this.view(), window, i), mp_cmp(min_periods, window, this.view().len()), o, true)),             // #C03,C05,C06 minimum_of_window
 //@closure 1 name=CloVargmin generics="<'a, V: RollingDrivers<T>>" generics_use="<'a, V>" trait="RollingIdxFn<T, f64>" params="start: Option<usize>, end: usize, v: T" ret="(res: f64)" push="CallIdx { start: start, end: end, v: v, out: __r }" callty="CallIdx<T, f64>" caps="mut min: Option<i64>, mut min_idx: Option<usize>, mut n: usize, this: &'a V, min_periods: usize"
 //@closure 1 extra
     open spec fn hist(&self) -> Seq<CallIdx<T, f64>> { self.h@ }
@@ -275,7 +275,7 @@ pub proof fn lemma_cache_gives_arg(x: Seq<T>, s: int, e: int, idx: Option<usize>
             let e = h.len() - 1;
             let s = ostart(h.last().start);
             &&& h.last().end == e && e < x.len() && 0 <= s <= e
-            &&& cache_ok(x, s, e, self.min_idx, self.min, true)                                                        // #C03 cached_minimum_describes_window
+            &&& cache_ok(x, s, e, self.min_idx, self.min, true)                                                        // #C03,C06 cached_minimum_describes_window
             &&& self.n as int == cntr(x, s + (if h.last().start.is_some() { 1int } else { 0int }), e + 1)              // #C03,C05 count_describes_window
         }
         &&& idx_outs_ok(h, x, |w: Seq<T>, o: f64| varg_spec(w, self.min_periods as int, o, true))
@@ -302,10 +302,10 @@ pub proof fn lemma_cache_gives_arg(x: Seq<T>, s: int, e: int, idx: Option<usize>
                             i > start ==> cache_ok(x, start as int, i - 1, min_idx, min, true),
 //@at closure 1 last
         proof {
-            assert(cache_ok(x, s_new, end as int, min_idx, min, true));                          // #C03 cached_extreme_describes_window
+            assert(cache_ok(x, s_new, end as int, min_idx, min, true));                          // #C03,C06 cached_extreme_describes_window
             if cntr(x, s_new, end as int + 1) > 0 { lemma_cache_gives_arg(x, s_new, end as int, min_idx, min, true); }
             let c = CallIdx { start: start, end: end, v: v, out: __r };
-            assert(varg_spec(x.subrange(s_new, end as int + 1), self.min_periods as int, __r, true));   // #C03,C05 output_is_offset_of_most_recent_extreme
+            assert(varg_spec(x.subrange(s_new, end as int + 1), self.min_periods as int, __r, true));   // #C03,C05,C06 output_is_offset_of_most_recent_extreme
             lemma_idx_outs_step(h0, c, x, |w: Seq<T>, o: f64| varg_spec(w, self.min_periods as int, o, true));
         }
 //@closure 1.1 mode=annotate params="min_idx: usize" ret="(q: f64)"
@@ -332,7 +332,7 @@ pub proof fn lemma_cache_gives_arg(x: Seq<T>, s: int, e: int, idx: Option<usize>
     }
 //@end
 
-//@fn name=ts_vargmax_to crate=tea-rolling ctx="pub trait RollingValidCmp" props=C03,C05,C10 arith=C05
+//@fn name=ts_vargmax_to crate=tea-rolling ctx="pub trait RollingValidCmp" props=C03,C05,C06,C07,C10 arith=C05
 //@types T::Inner=i64
 //@sig fn ts_vargmax_to<V: RollingDrivers<T>, O: Vec1<f64>>(this: &V, window: usize, min_periods: Option<usize>, out: Option<&mut O::Buf>) -> (r: Option<O>)
 //@replace min(this.len(), window) => usize_min(this.len(), window)
@@ -341,8 +341,8 @@ pub proof fn lemma_cache_gives_arg(x: Seq<T>, s: int, e: int, idx: Option<usize>
         out matches Some(o) ==> buf_fresh(o, this.view().len()),
         window >= 1,
     ensures
-        delivered_each(r, match out { Some(o) => Some(final(o).written()), None => None }, this.view().len(),                    // #C05 one_output_per_input
-            |i: int, o: f64| varg_spec(wnd(this.view(), window, i), mp_cmp(min_periods, window, this.view().len()), o, false)),             // #C03,C05 maximum_of_window
+        delivered_each(r, match out { Some(o) => Some(final(o).written()), None => None }, this.view().len(),                    // #C05,C07 one_output_per_input
+            |i: int, o: f64| varg_spec(wnd(this.view(), window, i), mp_cmp(min_periods, window, this.view().len()), o, false)),             // #C03,C05,C06 maximum_of_window
 //@closure 1 name=CloVargmax generics="<'a, V: RollingDrivers<T>>" generics_use="<'a, V>" trait="RollingIdxFn<T, f64>" params="start: Option<usize>, end: usize, v: T" ret="(res: f64)" push="CallIdx { start: start, end: end, v: v, out: __r }" callty="CallIdx<T, f64>" caps="mut max: Option<i64>, mut max_idx: Option<usize>, mut n: usize, this: &'a V, min_periods: usize"
 //@closure 1 extra
     open spec fn hist(&self) -> Seq<CallIdx<T, f64>> { self.h@ }
@@ -355,7 +355,7 @@ pub proof fn lemma_cache_gives_arg(x: Seq<T>, s: int, e: int, idx: Option<usize>
             let e = h.len() - 1;
             let s = ostart(h.last().start);
             &&& h.last().end == e && e < x.len() && 0 <= s <= e
-            &&& cache_ok(x, s, e, self.max_idx, self.max, false)                                                        // #C03 cached_maximum_describes_window
+            &&& cache_ok(x, s, e, self.max_idx, self.max, false)                                                        // #C03,C06 cached_maximum_describes_window
             &&& self.n as int == cntr(x, s + (if h.last().start.is_some() { 1int } else { 0int }), e + 1)              // #C03,C05 count_describes_window
         }
         &&& idx_outs_ok(h, x, |w: Seq<T>, o: f64| varg_spec(w, self.min_periods as int, o, false))
@@ -382,10 +382,10 @@ pub proof fn lemma_cache_gives_arg(x: Seq<T>, s: int, e: int, idx: Option<usize>
                             i > start ==> cache_ok(x, start as int, i - 1, max_idx, max, false),
 //@at closure 1 last
         proof {
-            assert(cache_ok(x, s_new, end as int, max_idx, max, false));                          // #C03 cached_extreme_describes_window
+            assert(cache_ok(x, s_new, end as int, max_idx, max, false));                          // #C03,C06 cached_extreme_describes_window
             if cntr(x, s_new, end as int + 1) > 0 { lemma_cache_gives_arg(x, s_new, end as int, max_idx, max, false); }
             let c = CallIdx { start: start, end: end, v: v, out: __r };
-            assert(varg_spec(x.subrange(s_new, end as int + 1), self.min_periods as int, __r, false));   // #C03,C05 output_is_offset_of_most_recent_extreme
+            assert(varg_spec(x.subrange(s_new, end as int + 1), self.min_periods as int, __r, false));   // #C03,C05,C06 output_is_offset_of_most_recent_extreme
             lemma_idx_outs_step(h0, c, x, |w: Seq<T>, o: f64| varg_spec(w, self.min_periods as int, o, false));
         }
 //@closure 1.1 mode=annotate params="max_idx: usize" ret="(q: f64)"
